@@ -10,6 +10,7 @@ mod tdstream;
 mod upstream;
 mod common;
 mod ffistream;
+mod hashstream;
 mod ringstream;
 mod rng;
 mod sddstream;
@@ -86,6 +87,7 @@ fn main() {
                 let _ = std::fs::create_dir_all(&scratch);
                 clistream::cli_lines(&mut rng, idx, maxvars, &bindir, &scratch)
             }
+            "hash" => hashstream::hash_lines(&mut rng, idx, maxvars, maxops),
             "ring" => ringstream::ring_lines(&mut rng, idx),
             "tbl" => vec![tblstream::tbl_line(&mut rng, maxops)],
             "lru" => vec![tblstream::lru_line(&mut rng, maxops)],
